@@ -50,7 +50,8 @@ Atoms == {"a", "b", ".", "[ab]", "(a)", "(a|b)", "(b)(a)", "a*", "(ab)+", "^a", 
 Invalid == {"(", "[a", "a**", "(a", "a)", "*a"}
 Patterns == Atoms \cup {x \o y : x \in Atoms, y \in {"b", "(a)", "a*", "(a|b)"}}
 Subjects == {"", "a", "b", "ab", "aab", "abab", "xay"}
-Templates == {"", "-", "$1", "$2", "[$1]", "$1$2", "$2$1", "$0", "$12", "$10", "x$1y", "$", "$$", "$3", "${1}", "$1a"}
+Templates == {"", "-", "$1", "$2", "[$1]", "$1$2", "$2$1", "$0", "$12", "$10", "x$1y", "$", "$$", "$3", "${1}", "$1a",
+              "$1x$1y", "$1$1a", "$2a$2b$1c", "$1-$1-$1", "a$2$2"}
 
 VARIABLES ph, p, s, r
 vars == <<ph, p, s, r>>
